@@ -132,3 +132,54 @@ theorem restoreAll_complete (env : Env) (T : MJ) (strs : List String) (inv : Tre
     exact ⟨c, ps, h', hp'⟩
 
 end Impl
+
+namespace Impl
+
+/-- acceptance, claims and paths for decoded disclosures -/
+theorem restoreDecoded_paths (T : MJ) (inv : TreeInv T) (L : List Disc) (hdist : Distinct L)
+    (hok : ∀ d ∈ L, DOk T d)
+    (hown : ∀ d ∈ L, ∃ x, (d.digest, x) ∈ T.hiddenE ∧ d.value = x.payload) :
+    ∃ c ps, restoreDecoded T.payload L = .ok (c, ps) ∧
+      removeAll c = T.project (fun h => L.any (fun d => d.digest = h)) ∧ PathsOK T L ps := by
+  obtain ⟨c, ps, hr, hp⟩ := restoreDecoded_complete T inv L hdist hok hown
+  obtain ⟨seen, s, h1, h2⟩ := prepass_ok T inv L hdist hown
+  obtain ⟨c', ps', hr', hpaths⟩ := rounds_paths T L inv hok hdist
+  have : restoreDecoded T.payload L = .ok (c', ps') := by
+    simp only [restoreDecoded, h1, h2]
+    exact hr'
+  rw [this] at hr
+  simp only [Outcome.ok.injEq, Prod.mk.injEq] at hr
+  obtain ⟨rfl, rfl⟩ := hr
+  exact ⟨_, _, this, hp, hpaths⟩
+
+/-- **T-restore, acceptance, claims and paths, from the presented strings.** -/
+theorem restoreAll_paths (env : Env) (T : MJ) (strs : List String) (inv : TreeInv T)
+    (hdec : ∀ s ∈ strs, ∃ d, fromBase64 env s = .ok d)
+    (hnd : (strs.map env.hash).Nodup)
+    (hacc : ∀ s ∈ strs, ∀ d, fromBase64 env s = .ok d →
+      DOk T d ∧ ∃ x, (d.digest, x) ∈ T.hiddenE ∧ d.value = x.payload) :
+    ∃ c ps L, restoreAll env T.payload strs = .ok (c, ps) ∧
+      removeAll c = T.project (fun h => strs.any (fun s => env.hash s = h)) ∧
+      (∀ d ∈ L, ∃ s ∈ strs, fromBase64 env s = .ok d) ∧
+      (∀ s ∈ strs, ∃ d ∈ L, fromBase64 env s = .ok d) ∧ PathsOK T L ps := by
+  obtain ⟨L, hL⟩ := decodeAll_complete env strs [] hdec (by simp) hnd
+  obtain ⟨hdist, hfrom, hto, _⟩ := decodeAll_ok env strs [] L hL (by simp [Distinct])
+  have hfrom' : ∀ d ∈ L, ∃ s ∈ strs, fromBase64 env s = .ok d := by
+    intro d hd
+    rcases hfrom d hd with h | h
+    · simp at h
+    · exact h
+  have hprops : ∀ d ∈ L, DOk T d ∧ ∃ x, (d.digest, x) ∈ T.hiddenE ∧ d.value = x.payload := by
+    intro d hd
+    obtain ⟨s, hs, hf⟩ := hfrom' d hd
+    exact hacc s hs d hf
+  obtain ⟨c, ps, hr, _, hpaths⟩ := restoreDecoded_paths T inv L hdist (fun d hd => (hprops d hd).1)
+    (fun d hd => (hprops d hd).2)
+  have hres : restoreAll env T.payload strs = .ok (c, ps) := by simp [restoreAll, hL, hr]
+  obtain ⟨c2, ps2, h2, hp2⟩ := restoreAll_complete env T strs inv hdec hnd hacc
+  rw [hres] at h2
+  simp only [Outcome.ok.injEq, Prod.mk.injEq] at h2
+  obtain ⟨rfl, rfl⟩ := h2
+  exact ⟨_, _, L, hres, hp2, hfrom', hto, hpaths⟩
+
+end Impl
